@@ -192,6 +192,9 @@ def cuts_to_sched(cuts, n):
     return out
 
 
+LONG_VALUES = [127, 128, 129, 255, 256, 257, 1000, 4000, 4090, 4095, 4096, 4097, 4100, 8190, 8191, 8192, 8193, 12000, 15000]   # every front-end caps the header block at 16384 bytes
+
+
 def count_sweep(S, rnd, windex, limit, cnt, res, prefix="c01", kinds=("headers", "query", "cookies", "form")):
     """requests with exactly k header lines / query fields / cookies / form fields for every k up to the limit (the workers share
     the range): element counts are where tables grow, and each count is a well-formed request that must be delivered like any other"""
@@ -212,6 +215,9 @@ def count_sweep(S, rnd, windex, limit, cnt, res, prefix="c01", kinds=("headers",
                 r.form = [(b"f%03d" % i, b"%d" % i) for i in range(k)]
                 r.body = b"&".join(a + b"=" + b for a, b in r.form)
                 r.content_type = b"application/x-www-form-urlencoded"
+            if what == "headers" and k < len(LONG_VALUES):
+                # one long header value as well: lengths around the read-buffer and record sizes
+                r.headers.append((b"X-Long", b"L" * LONG_VALUES[k]))
             for pn in ("http", "scgi", "fastcgi"):
                 data = proto.http_encode(r) if pn == "http" else proto.scgi_encode(r) if pn == "scgi" else proto.fcgi_encode(r)
                 where = pn + "-count-sweep"
